@@ -76,6 +76,8 @@ Logged(ln) ==
                                   /\ PushRet(ln.a.p)
       [] ln.ev = "Drain"       -> queue # <<>> /\ Head(queue).id = ln.a.id /\ Drain
       [] ln.ev = "State"       -> AllIdle /\ ListMatches(ln.s) /\ Same
+      \* a tick of the periodic updater whose fetch failed: only if the node really failed a call, and nothing changes
+      [] ln.ev = "TickFailed"  -> ln.a.node_failures > 0 /\ AllIdle /\ ListMatches(ln.s) /\ Same
       \* results of the free-running hammer phase: only what holds regardless of the interleaving (RightSet)
       [] ln.ev = "FreeRet"     ->
             /\ \/ ln.a.res.tag = "err"
